@@ -78,7 +78,30 @@ func runC07(r *Run) {
 		outs := []string{waitKind("idle")}
 		steps := 4 + r.Rng.Intn(20)
 		for st := 0; st < steps; st++ {
-			switch k := r.Rng.Intn(7); {
+			switch k := r.Rng.Intn(8); {
+			case k == 7:
+				// a reply nobody waits for sends the reader round its loop; its SetReadDeadline call is held at the
+				// entry while a caller enqueues, writes and arms its own deadline (if the code lets it), then let go
+				entered := fc.armGate(60 * time.Millisecond)
+				fc.feed(fc.frame(mkReply(mkQuery(0, 424242), uint16(40000+r.Rng.Intn(20000)))))
+				select {
+				case <-entered:
+				case <-time.After(time.Second):
+				}
+				rx, _ := dc.ReserveNewQuery()
+				if rx == nil {
+					ops = append(ops, "s")
+					outs = append(outs, kind())
+					continue
+				}
+				c := startCall09(rx, false)
+				if !findWrite09(fc, c, 2*time.Second) {
+					continue
+				}
+				parked = append(parked, c)
+				time.Sleep(70 * time.Millisecond) // the held call is through by now
+				ops = append(ops, "g")
+				outs = append(outs, waitKind("short"))
 			case k < 3:
 				rx, _ := dc.ReserveNewQuery()
 				if rx == nil {
